@@ -191,9 +191,13 @@ def canon_model_answer(ans):
     return {"ok": o}
 
 
-def run_parse(parser, fmt, tokens, lenient, as_string=False):
+def run_parse(parser, fmt, tokens, lenient, as_string=False, argv=None):
+    """`argv`: the caller's own argv LIST object (script name first), e.g. sys.argv used for several parses"""
     from clikit.args.argv_args import ArgvArgs
-    raw = ArgvArgs(["prog"] + list(tokens))
+    try:
+        raw = ArgvArgs(argv if argv is not None else ["prog"] + list(tokens))
+    except Exception as e:  # noqa - e.g. an argv list that an earlier ArgvArgs emptied
+        return {"err": "building the raw args: " + type(e).__name__}
     try:
         args = parser.parse(raw, fmt, lenient)
     except Exception as e:  # noqa
